@@ -243,6 +243,59 @@ Theorem C05_two_reads_model_safe : forall dcf rackf (g : ring N) keyspaces en1 c
   two_reads_safe_b dcf rackf g keyspaces en1 co1 en2 co2 pol rq (map fst pl) = true.
 Proof. exact two_reads_model_safe. Qed.
 
+(* ---- any number of liveness changes, at arbitrary points of one Plan ----------------------
+   [reads]: the candidates the fallback iterator pulled and that passed their liveness test, in
+   the order pulled, each with the snapshot (enabled, connected) it was tested under
+   ([reads_ok]: the candidate is offered by the fallback chain under that snapshot); unique_by
+   runs over everything pulled, Plan removes the picked target by exact equality.  Then: the
+   first target is an acceptable pick for the snapshot pick() saw; every target was enabled in
+   the snapshot it was chosen in and is permitted; the later targets name no node twice; the
+   picked node is named again at most once, and only with another annotation.  The two-read
+   plan is the instance in which every candidate is pulled under the second snapshot. *)
+Theorem C05_reads_safe : forall dcf rackf (g : ring N) keyspaces shf pol rq,
+  sorted_weak g ->
+  (forall k s, ks_lookup keyspaces k = Some s -> nts_keys_ok s) ->
+  forall cho shuf, (forall site l, Permutation (shuf site l) l) ->
+  (forall site len, (0 < len)%nat -> (cho site len < len)%nat) ->
+  forall (s0 : snapshot) reads p tl,
+  reads_ok dcf rackf g keyspaces shf pol rq cho shuf reads ->
+  plan_reads dcf rackf g keyspaces shf pol rq cho s0 reads = Some (p :: tl) ->
+  pick_matches dcf rackf g keyspaces (fst s0) (snd s0) pol rq (Some (fst p)) = true /\
+  (fst s0 (fst p) = true /\ permitted dcf g pol rq (fst p) = true) /\
+  (forall x, In x tl -> exists s, In (x, s) reads /\ fst s (fst x) = true /\ permitted dcf g pol rq (fst x) = true) /\
+  NoDup (map fst tl) /\
+  (forall x, In x tl -> fst x = fst p -> snd x <> snd p).
+Proof. exact plan_reads_safe. Qed.
+
+Theorem C05_two_reads_as_reads : forall dcf rackf (g : ring N) keyspaces shf pol rq cho shuf (s0 s1 : snapshot),
+  plan_two_reads dcf rackf g keyspaces (fst s0) (snd s0) (fst s1) (snd s1) shf pol rq cho shuf =
+  plan_reads dcf rackf g keyspaces shf pol rq cho s0
+    (map (fun x => (x, s1)) (chain_under dcf rackf g keyspaces shf pol rq cho shuf s1)) /\
+  reads_ok dcf rackf g keyspaces shf pol rq cho shuf
+    (map (fun x => (x, s1)) (chain_under dcf rackf g keyspaces shf pol rq cho shuf s1)).
+Proof. exact plan_two_reads_as_reads. Qed.
+
+(* three snapshots: node 2 pulled while node 1 is down, node 1 pulled (as a node target) after it
+   came back: the duplicate of C05_two_reads_refuted; a shard-less target pulled after the picked
+   one is dropped by unique_by; a node disabled in its snapshot is not offered *)
+Example C05_ex_reads :
+  let ro := reads_ok (fun _ => None) (fun _ => None) tw_g tw_ks (fun _ => 0%N) tw_pol tw_rq (fun _ _ => 0%nat) (fun _ l => l) in
+  let pr := plan_reads (fun _ => None) (fun _ => None) tw_g tw_ks (fun _ => 0%N) tw_pol tw_rq (fun _ _ => 0%nat) in
+  let up : snapshot := (tw_up, tw_up) in
+  let down1 : snapshot := (tw_up, tw_co2) in
+  let off2 : snapshot := (fun n => negb (N.eqb n 2), tw_up) in
+  let rd := [((2, None), down1); ((1, None), up)]%N in
+  ro rd /\ pr up rd = Some [(1, Some 0); (2, None); (1, None)]%N /\
+  pr up [((1, Some 0), up); ((1, None), down1); ((2, None), down1)]%N = Some [(1, Some 0); (2, None)]%N /\
+  ~ ro [((2, None), off2)]%N.
+Proof.
+  cbv zeta. split; [|split; [|split]].
+  - repeat constructor; vm_compute; tauto.
+  - vm_compute. reflexivity.
+  - vm_compute. reflexivity.
+  - intros H. inversion H as [|? ? H1 _]. vm_compute in H1. intuition congruence.
+Qed.
+
 (* the witness is the two-read plan of a two-node ring whose node 1 loses its connections *)
 Example C05_ex_two_reads :
   tw_plan = plan_two_reads (fun _ => None) (fun _ => None) [(10, 1%N); (20, 2%N)] [(0%N, Simple 1)]
@@ -368,3 +421,5 @@ Print Assumptions C05_two_reads_accepted.
 Print Assumptions C05_two_reads_safe_b_sound.
 Print Assumptions C05_two_reads_accept_safe.
 Print Assumptions C05_two_reads_model_safe.
+Print Assumptions C05_reads_safe.
+Print Assumptions C05_two_reads_as_reads.
